@@ -7,6 +7,7 @@
 from typing import Iterable, Union, List, Generator, Tuple, TypeVar, Optional, Sequence
 from collections import deque, namedtuple
 import weakref
+import operator
 
 from qupulse.utils.types import SequenceProxy
 
@@ -61,12 +62,29 @@ class Node:
     def __reversed__(self: _NodeType) -> Iterable[_NodeType]:
         return reversed(self.__children)
 
+    def _make_child(self: _NodeType, child) -> _NodeType:
+        """The node `child` stands for, WITHOUT touching an existing node (a dict makes a new node below self)."""
+        if isinstance(child, dict):
+            return type(self)(parent=self, **child)
+        elif type(child) is type(self):
+            return child
+        else:
+            raise TypeError('Invalid child type', type(child))
+
     def __setitem__(self: _NodeType, idx: Union[int, slice], value: Union[_NodeType, Iterable[_NodeType]]):
+        # Everything that can reject the assignment (type of the values, step 0, size mismatch of an extended slice, index
+        # out of range or not an integer) is checked BEFORE the first value is re-parented: a rejected assignment used to
+        # leave the values (which the caller may hold, or which may still be listed elsewhere) pointing to self.
         if isinstance(idx, slice):
             if isinstance(value, Node):
                 raise TypeError('can only assign an iterable (Loop does not count)')
-            value = tuple(self.parse_child(child) for child in value)
+            value = tuple(self._make_child(child) for child in value)
             indices = range(*idx.indices(len(self.__children)))
+            if indices.step != 1 and len(value) != len(indices):
+                raise ValueError('attempt to assign sequence of size %d to extended slice of size %d'
+                                 % (len(value), len(indices)))
+            for child in value:
+                child.__parent = weakref.ref(self)
             removed = self.__children[idx]
             self.__children.__setitem__(idx, value)
 
@@ -80,10 +98,16 @@ class Node:
             self._detach_removed(removed, value)
 
         else:
-            value = self.parse_child(value)
-            value.__parent_index = idx + len(self.__children) if idx < 0 else idx
-            removed = self.__children[idx]
-            self.__children.__setitem__(idx, value)
+            index = operator.index(idx)
+            if index < 0:
+                index += len(self.__children)
+            if not 0 <= index < len(self.__children):
+                raise IndexError('list assignment index out of range')
+            value = self._make_child(value)
+            value.__parent = weakref.ref(self)
+            value.__parent_index = index
+            removed = self.__children[index]
+            self.__children.__setitem__(index, value)
             self._detach_removed((removed,), (value,))
 
     def _detach_removed(self: _NodeType, removed: Iterable[_NodeType], kept: Iterable[_NodeType]):
